@@ -1033,6 +1033,11 @@ class list_t(object):
                     # The model's view is always masked 2's complement
                     v = int(self.model.field_l[self.idx].get_val())
                     
+                    if self.l.is_enum:
+                        # Enum lists yield enumerators, as indexing does
+                        self.idx += 1
+                        return self.l.t.enum_i.v2e(v)
+                    
                     if self.l.t.is_signed:
                         if (v & (1 << (self.l.t.width-1))) != 0:
                             v = -((~v & self.l.mask)+1)
